@@ -138,7 +138,7 @@ theorem PoolInv.poolLoop (w : World) (p : Pid) (pl rem ini : Nat) (pre : Bool) (
       dsimp only at h2 ⊢
       split
       · exact h2
-      · exact (h2.same (guardWaitEnter_same _ _ _ _)).same (block_same _ _ _)
+      · exact PoolInv.of_fp (block_fp _ _ _) rfl rfl (h2.same (guardWaitEnter_same _ _ _ _))
 
 theorem amountOf_le_amounts {q : KPQ} (hnd : (keys q).Nodup) (k : Nat) : amountOf q k ≤ amounts q := by
   have := HashHeap.amounts_remove hnd k; omega
@@ -428,7 +428,7 @@ theorem heldOf_dropResources (w : World) (p : Pid) (hi : PoolInv w) (pl : Nat) :
 theorem PoolInv.finishProc (w : World) (p : Pid) (v : Int) (st : Bool) (hi : PoolInv w) : PoolInv (finishProc w p v st) := by
   unfold Sim.finishProc
   dsimp only
-  refine PoolInv.same (modProc_same _ _ _ (fun _ => rfl)) (PoolInv.same (wakeWaiters_same _ _ _) ?_)
+  refine PoolInv.of_fp (modProc_fp_blocked _ _ _ (fun _ => rfl)) rfl rfl (PoolInv.same (wakeWaiters_same _ _ _) ?_)
   split
   · exact PoolInv.dropResources _ _ (hi.same (cancelAwaiteds_same _ _))
   · exact (PoolInv.dropResources _ _ hi).same (cancelAwaiteds_same _ _)
@@ -464,21 +464,18 @@ theorem acquireStep_poolHeld (w : World) (p : Pid) (r : Nat) (q : Pid) (pl : Nat
   unfold acquireStep
   (repeat' split) <;> simp
 
-theorem resCmd_viewSame (w : World) (p : Pid) (c : Cmd) (hc : cmdMask c = mResHeld) : ViewSame w (execCmd w p c).1 := by
+theorem resCmd_viewSame (w : World) (p : Pid) (c : Cmd) (r : Nat)
+    (hc : c = .acquire r ∨ c = .preempt r ∨ c = .release r) : ViewSame w (execCmd w p c).1 := by
   have hf := execCmd_fp w p c
-  rw [hc] at hf
-  refine ⟨hf.2.2.2.2.2.2.2.1, poolView_of_fp hf rfl, ?_⟩
+  have hpools : (cmdMask c).pools = false := by rcases hc with rfl | rfl | rfl <;> rfl
+  refine ⟨hf.2.2.2.2.2.2.2.1, poolView_of_fp hf hpools, ?_⟩
   intro q pl
-  cases c <;> simp [cmdMask, recMask] at hc
-  case acquire r => simp only [execCmd]; exact acquireStep_poolHeld _ _ _ _ _
-  case preempt r =>
-    simp only [execCmd]
+  rcases hc with rfl | rfl | rfl
+  · simp only [execCmd]; exact acquireStep_poolHeld _ _ _ _ _
+  · simp only [execCmd]
     (repeat' split) <;> simp [acquireStep_poolHeld]
-  case release r =>
-    simp only [execCmd]
+  · simp only [execCmd]
     (repeat' split) <;> simp
-  case recStart kind idx => split at hc <;> simp at hc
-  case recStop kind idx => split at hc <;> simp at hc
 
 theorem acquireFrame_viewSame (w : World) (p : Pid) (r : Nat) (sig : Int) :
     ViewSame w (resumeFrame w p (.acquire r) sig).1 := by
@@ -494,7 +491,7 @@ theorem setRecording_viewSame (w : World) (kind idx : Nat) (on : Bool) : ViewSam
   have hf := setRecording_fp w kind idx on
   have hheld : ∀ q pl, HoldRef.pool pl ∈ ((setRecording w kind idx on).proc q).held ↔ HoldRef.pool pl ∈ (w.proc q).held := by
     intro q pl
-    rw [hf.2.2.2.2.2.2.2.2 (by unfold recMask; split <;> rfl) q]
+    rw [hf.2.2.2.2.2.2.2.2.1 (by unfold recMask; split <;> rfl) q]
   by_cases hk : kind = 1
   · subst hk
     refine ⟨hf.2.2.2.2.2.2.2.1, ?_, hheld⟩
@@ -619,7 +616,7 @@ theorem PoolInv.prioSet (w : World) (p q : Pid) (v : Int) (hi : PoolInv w) : Poo
           · intro q'; (repeat' split) <;> simp
         obtain ⟨a1, a2⟩ := ih _ (PoolInv.of_viewSame hstep.1 hi0)
         exact ⟨a1, fun q' => (a2 q').trans (hstep.2 q')⟩
-    have hw1 : PoolInv (w.modProc q fun y => { y with prio := v }) := hi.same (modProc_same _ _ _ (fun _ => rfl))
+    have hw1 : PoolInv (w.modProc q fun y => { y with prio := v }) := hi.same (modProc_same _ _ _ (fun _ => rfl) (fun _ => rfl))
     obtain ⟨hi2, hheld2⟩ := h1 _ hw1 ((w.modProc q fun y => { y with prio := v }).proc q).awaits
     generalize (List.foldl _ (w.modProc q fun y => { y with prio := v }) _) = w2 at hi2 hheld2 ⊢
     -- the second fold: one reprioritize per pool held
@@ -654,6 +651,7 @@ theorem PoolInv.preserved : Preserved PoolInv where
   same hs h := h.same hs
   tick _ h := PoolInv.of_viewSame ⟨rfl, fun _ => rfl, fun _ _ => Iff.rfl⟩ h
   finish w p v st h := PoolInv.finishProc w p v st h
+  clear w p f hf _ h := PoolInv.of_fp (modProc_fp_blocked w p f hf) rfl rfl h
   exec w p c hp h := by
     by_cases hm : (cmdMask c).pools = false ∧ (cmdMask c).held = false
     · exact PoolInv.of_fp (execCmd_fp w p c) hm.1 hm.2 h
@@ -667,9 +665,9 @@ theorem PoolInv.preserved : Preserved PoolInv where
           · exact h
       case exit val => simp only [execCmd]; exact PoolInv.finishProc _ _ _ _ h
       case prioSet q v => exact PoolInv.prioSet _ _ _ _ h
-      case acquire r => exact PoolInv.of_viewSame (resCmd_viewSame w p _ rfl) h
-      case preempt r => exact PoolInv.of_viewSame (resCmd_viewSame w p _ rfl) h
-      case release r => exact PoolInv.of_viewSame (resCmd_viewSame w p _ rfl) h
+      case acquire r => exact PoolInv.of_viewSame (resCmd_viewSame w p _ r (Or.inl rfl)) h
+      case preempt r => exact PoolInv.of_viewSame (resCmd_viewSame w p _ r (Or.inr (Or.inl rfl))) h
+      case release r => exact PoolInv.of_viewSame (resCmd_viewSame w p _ r (Or.inr (Or.inr rfl))) h
       case poolAcquire pl n =>
         simp only [execCmd]
         split
